@@ -732,7 +732,7 @@ def r109(ctx, R):
                  not bad, 'after the wrapped call returns nothing raises '
                  'an HTTP error (the write is committed by then)',
                  bad[:3] or 'nothing', func=w, node=dl[0])
-    R.count('R10.9', n, 6)
+    R.count('R10.9', n, 4)
 
 
 _run_c10c = run
